@@ -56,6 +56,13 @@ def render(stmts):
             out.append(f'#{k} {st[1]}')
         elif k == 'definev':
             out.append(f'#define {st[1]} {st[2]}')
+        elif k == 'raw':
+            out.append(st[1])
+        elif k == 'cmz':
+            out.append(f'#create_memzone {st[1]} {st[2]} {st[3]}')
+        elif k == 'usez':
+            out.append(f'.memzone {st[1]}')
+            out.append('.memzone GLOBAL')
         elif k == 'mark':
             out.append(f'.byte {st[1]}')
         elif k == 'label':
@@ -83,6 +90,7 @@ class RefCond:
         self.mute = E.bvval(0)
         self.lines = []          # (file, line_no, kind, active Bool, muted Bool, stmt)
         self.consts = {}         # name -> [(value, active Bool)] in definition order
+        self.zones = {}          # zone name -> [active Bool of each #create_memzone line]
         self.must_reject = []    # z3 Bools: a selected reference without a selected definition / two selected definitions
         self.illformed = False
         self.stray = []          # conditions under which an included file with a stray #else/#elif/#endif is read
@@ -150,6 +158,16 @@ class RefCond:
                     self.symval[st[1]] = st[2]
                 self.lines.append((fname, ln, 'define', cur(), None, st))
                 self.defined[st[1]] = z3.Or(self.defined.get(st[1], z3.BoolVal(False)), cur())
+            elif k == 'raw':
+                self.must_reject.append(cur())      # text that is no statement: fatal iff its branch is selected
+            elif k == 'cmz':
+                # a zone definition counts iff its line is selected; two selected definitions of one name are an error
+                for other in self.zones.get(st[1], []):
+                    self.must_reject.append(z3.And(other, cur()))
+                self.zones.setdefault(st[1], []).append(cur())
+            elif k == 'usez':
+                defs = self.zones.get(st[1], [])
+                self.must_reject.append(z3.And(cur(), z3.Not(z3.Or(*defs)) if defs else z3.BoolVal(True)))
             elif k == 'mute':
                 self.mute = z3.If(cur(), self.mute + E.bvval(1), self.mute)
             elif k == 'unmute':
@@ -311,6 +329,16 @@ def handwritten():
                                                   ('if', S2, '>=', D5), M(2), ('else',), M(3), ('endif',), M(9)]
     H['valued-symbol-in-elif'] = [('definev', 'LV', 7), ('ift', S1), M(1), ('elif', D0, '>', S2), M(2), ('elif', D1, '!=', S3), M(3),
                                   ('endif',), M(9)]
+    # zone definitions: only the ones on selected lines exist
+    H['zone-defined-in-either-branch'] = [('ift', S1), ('cmz', 'ZZ', 0x100, 0x10f), ('else',), ('cmz', 'ZZ', 0x200, 0x20f), ('endif',),
+                                          M(1), ('usez', 'ZZ'), M(2)]
+    H['zone-defined-only-in-one-branch'] = [('ift', S1), ('cmz', 'ZZ', 0x100, 0x10f), ('endif',), M(1), ('ift', S2), ('usez', 'ZZ'),
+                                            ('endif',), M(2)]
+    H['zone-defined-in-nested-unselected'] = [('ift', S1), ('ift', S2), ('cmz', 'ZY', 0x300, 0x30f), ('endif',), ('endif',), M(1),
+                                              ('usez', 'ZY'), M(2)]
+    # lines of an unselected branch are not interpreted: they may be anything
+    H['garbage-in-unselected-branch'] = [M(1), ('ift', S1), M(2), ('else',), ('raw', 'frobnicate 1, 2 ]'), ('raw', '.memzone NOWHERE'),
+                                         ('raw', '.byte'), M(3), ('endif',), M(4)]
     H['labels-and-constants'] = [('ift', S1), ('label', 'la'), ('const', 'KA', 5), M(1), ('else',), ('label', 'lb'),
                                  ('const', 'KB', 6), M(2), ('endif',), ('label', 'lc')]
     return H
